@@ -10,6 +10,7 @@ import (
 	"context"
 	"encoding/json"
 	"fmt"
+	ecobase "github.com/regen-network/regen-ledger/x/ecocredit/v3/base"
 	"math/big"
 	"sort"
 	"strings"
@@ -167,6 +168,7 @@ type Notes struct {
 	OffLattice []string `json:"offlattice"`
 	Extra      []string `json:"extra"`
 	Overflow   []string `json:"overflow"`
+	IDCheck    []string `json:"idcheck"` // stored ids rejected by the chain's own validators, or parsed into other parents
 }
 
 type projector struct {
@@ -269,7 +271,7 @@ func (p *projector) seqOfData(msg proto.Message) int64 {
 
 // ProjectEco renders the whole ecocredit + bank state.
 func (a *App) ProjectEco(ctx sdk.Context) (*State, *Notes) {
-	n := &Notes{Malformed: []string{}, OffLattice: []string{}, Extra: []string{}, Overflow: []string{}}
+	n := &Notes{Malformed: []string{}, OffLattice: []string{}, Extra: []string{}, Overflow: []string{}, IDCheck: []string{}}
 	p := &projector{a: a, ctx: ctx, notes: n, bdenoms: map[string]bool{}}
 	s := &State{}
 	var c context.Context = ctx
@@ -338,6 +340,42 @@ func (a *App) ProjectEco(ctx sdk.Context) (*State, *Notes) {
 				"issued": p.tick(w+" issuance", v.IssuanceDate), "open": v.Open, "ck": v.ClassKey})
 		}
 		it.Close()
+	}
+	// C14: every stored id is accepted by the chain's own validators, and its parsers recover
+	// the ids of the parents the row references
+	{
+		classByKey, projByKey := map[uint64]map[string]any{}, map[uint64]map[string]any{}
+		for _, c := range s.Classes {
+			classByKey[c["key"].(uint64)] = c
+			id := c["id"].(string)
+			if err := ecobase.ValidateClassID(id); err != nil {
+				n.IDCheck = append(n.IDCheck, "class "+id+": "+err.Error())
+			} else if ct := ecobase.GetCreditTypeAbbrevFromClassID(id); ct != c["ct"].(string) {
+				n.IDCheck = append(n.IDCheck, "class "+id+": parsed credit type "+ct)
+			}
+		}
+		for _, pr := range s.Projects {
+			projByKey[pr["key"].(uint64)] = pr
+			id := pr["id"].(string)
+			if err := ecobase.ValidateProjectID(id); err != nil {
+				n.IDCheck = append(n.IDCheck, "project "+id+": "+err.Error())
+			} else if c, ok := classByKey[pr["ck"].(uint64)]; ok && ecobase.GetClassIDFromProjectID(id) != c["id"].(string) {
+				n.IDCheck = append(n.IDCheck, "project "+id+": parsed class "+ecobase.GetClassIDFromProjectID(id))
+			}
+		}
+		for _, b := range s.Batches {
+			dn := b["denom"].(string)
+			if err := ecobase.ValidateBatchDenom(dn); err != nil {
+				n.IDCheck = append(n.IDCheck, "batch "+dn+": "+err.Error())
+			} else if pr, ok := projByKey[b["pk"].(uint64)]; ok {
+				if ecobase.GetProjectIDFromBatchDenom(dn) != pr["id"].(string) {
+					n.IDCheck = append(n.IDCheck, "batch "+dn+": parsed project "+ecobase.GetProjectIDFromBatchDenom(dn))
+				}
+				if c, ok := classByKey[pr["ck"].(uint64)]; ok && ecobase.GetClassIDFromBatchDenom(dn) != c["id"].(string) {
+					n.IDCheck = append(n.IDCheck, "batch "+dn+": parsed class "+ecobase.GetClassIDFromBatchDenom(dn))
+				}
+			}
+		}
 	}
 	s.Cseq = []map[string]any{}
 	{
